@@ -25,6 +25,13 @@ T_13 == {Mat3(-1, -2, -2, NoTr, -1, -1)}
 T_02 == {Mat3(-1, -1, -2, -3, NoTr, -1)}
 T2_a == {[i \in 0 .. 1 |-> [j \in 0 .. 2 |-> IF j < i THEN NoTr ELSE <<-1, -2, -2, NoTr, -1, -1>>[i * 3 + j + 1]]]}
 T2_b == {[i \in 0 .. 1 |-> [j \in 0 .. 2 |-> IF j < i THEN NoTr ELSE <<-1, -1, NoTr, NoTr, -1, -2>>[i * 3 + j + 1]]]}
+(* 5 states: self loop d, steps nx[i], skips sk[i] (all present: the topology the 5-state routine is written for) *)
+Mat5(nx, sk, d) == [i \in 0 .. 4 |-> [j \in 0 .. 5 |-> CASE i = j -> d [] j = i + 1 -> nx[i + 1] [] j = i + 2 /\ j <= 5 -> sk[i + 1] [] OTHER -> NoTr]]
+TP5 == {Mat5(<<-1, -2, -1, -2, -1>>, <<-1, -3, -1, -3>>, -1), Mat5(<<-2, -1, -1, -1, -2>>, <<-3, -1, -2, -1>>, -1),
+        Mat5(<<-1, -1, -1, -1, -1>>, <<-2, -2, -2, -2>>, -2)}
+(* a 5-state topology WITHOUT skips: the 5-state routine adds the score 255 of "no transition" like any other *)
+T5_noskip == {Mat5(<<-1, -2, -1, -2, -1>>, <<NoTr, NoTr, NoTr, NoTr>>, -1)}
+T5_a == {Mat5(<<-1, -2, -1, -2, -1>>, <<-1, -3, -1, -3>>, -1)}
 WorstC == -1000
 NoTrC == -255
 SenA == {0, -2}
